@@ -322,10 +322,10 @@ class RadiDict:
             hooks = hooks, params = params, overwrite = overwrite
         )
 
-    def remove(self, route_pattern, hooks_only=False):
+    def remove(self, route_pattern, hooks_only=False, exact=False):
 
         is_wildcard = False
-        if route_pattern and route_pattern[-1] == '*':
+        if not exact and route_pattern and route_pattern[-1] == '*':
             route_pattern = route_pattern[:-1]
             is_wildcard = True
             if hooks_only:
